@@ -51,7 +51,7 @@ pub fn run_one(seed: u64, thorough: bool) -> (Vec<Violation>, std::collections::
     pc.continue_after_preemption = cfg.continue_after_preemption;
     pc.idle_timeout = cfg.idle_timeout_ms.map(Duration::from_millis);
     pc.max_idle_per_host = cfg.max_idle_per_host;
-    let svc: ConnectionPoolService<LabTransport, LabProtocol, LabInner, Body> = ConnectionPoolService::new(LabTransport { world: world.clone() }, LabProtocol { world: world.clone() }, LabInner { world: world.clone() }, pc);
+    let svc: ConnectionPoolService<LabTransport, LabProtocol, LabInner, Body> = ConnectionPoolService::new(LabTransport { world: world.clone() }, LabProtocol::new(world.clone()), LabInner { world: world.clone() }, pc);
 
     let rt = tokio::runtime::Builder::new_multi_thread().worker_threads(workers).enable_all().build().unwrap();
     let done = Arc::new(AtomicBool::new(false));
